@@ -197,8 +197,10 @@ def main(run):
                 "update_count, both h_sigma branches); generate: seeded numpy draws recorded and replayed. A case is distinct by "
                 "its full input; non-trivial = population with at least two different fitness values.")
     run.trusted += ["Coq 8.16.1 kernel and vm_compute",
-                    "hand-written models coq/Model/C13_CMAexec.v (lists, evaluated) and coq/Model/C13_CMAalg.v (mathcomp matrices, "
-                    "theorems); the two are transcriptions of the same source lines",
+                    "hand-written model coq/Model/C13_CMAexec.v (lists, generic number type) tied to /repo by correspondence at the "
+                    "PrimFloat instance; the theorems are about coq/Model/C13_CMAalg.v (mathcomp matrices), which the list model "
+                    "refines at every real closed field (Props/C13_refine.v: computeParams, __init__, generate, update); not linked "
+                    "by proof: the two stable sorts (insertion vs mathcomp merge; each proved order-independent) and int(4+3 log N)",
                     "numpy.linalg.eigh as an oracle: contract V diag(w) V^T = C, V^T V = I checked numerically on every value used",
                     "PrimFloat exp/ln approximations of coq/Base/C13_FloatFun.v (only inside the tolerance comparison)",
                     "N3 tolerance: rtol 1e-9 relative to the largest magnitude of the compared array (x max(1, cond C) for the "
@@ -209,6 +211,7 @@ def main(run):
                         "cmatrix given as a numpy array"]
     run.build_props()                                  # Props/C13.v (mathcomp, algebraic model)
     run.build_props(props="Props/C13_exec.v")         # list model + Reals instance
+    run.build_props(props="Props/C13_refine.v")       # list model (at any real closed field) refines the algebraic model
     rng = run.rng
     nprng = numpy.random.RandomState(rng.randrange(2 ** 31))
 
